@@ -12,7 +12,7 @@ import os
 import subprocess
 import sys
 
-ROOT = '/verif'
+ROOT = os.path.dirname(os.path.dirname(os.path.abspath(__file__)))
 SCR = '/tmp/seedrun'
 
 
